@@ -715,6 +715,118 @@ def matches(ex, actual, want):
     raise ValueError(k)
 
 
+# ----------------------------------------------------------------------------- scenarios for native replay
+TYPE_NAMES = ["int", "uint", "double", "bool", "string", "bytes"]
+
+
+def vm_scenario(ex):
+    """-> function(model) -> {"kind": "vm", "request": <input of `mreplay vm`>}"""
+    def mv(t):
+        return ex_model[0].eval(t, model_completion=True)
+
+    ex_model = [None]
+
+    def variant(v):
+        vs = ex.adt_variants(v.ty)
+        if isinstance(v.discr, int):
+            return vs[v.discr][0]
+        k = mv(v.discr).as_long()
+        if k >= len(vs):
+            raise ValueError("discriminant out of range in the model")
+        return vs[k][0]
+
+    def build(model):
+        ex_model[0] = model
+        req = {"params": {}, "funcs": [], "macros": [], "programs": {}}
+        names = {}
+        counter = [0]
+
+        def env_some(kind, nv):
+            o = ex.lazy.get(("env", kind, nv))
+            return o is not None and variant(o) == "Some"
+
+        def name_for(nv):
+            if nv in names:
+                return names[nv]
+            if env_some("type", nv):
+                n = TYPE_NAMES[len([x for x in names.values() if x in TYPE_NAMES]) % len(TYPE_NAMES)]
+            else:
+                n = f"n{len(names)}"
+            names[nv] = n
+            if env_some("param", nv):
+                o = ex.lazy[("env", "param", nv)]
+                req["params"][n] = value(models.deref(ex, ex.adt_fields(o, 1)[0]), allow_ident=False)
+            if env_some("func", nv):
+                req["funcs"].append(n)
+            if env_some("macro", nv):
+                req["macros"].append(n)
+            if env_some("program", nv):
+                req["programs"][n] = "40 + 2"
+            return n
+
+        def value(v, allow_ident=True):
+            k = variant(v)
+            counter[0] += 1
+            c = counter[0]
+            if k == "Int":
+                return {"Int": 10 + c}
+            if k == "UInt":
+                return {"UInt": 10 + c}
+            if k == "Float":
+                return {"Float": 0.5 + c}
+            if k == "Bool":
+                b = ex.adt_fields(v, ex.variant_index(v, "Bool"))[0]
+                return {"Bool": z3.is_true(mv(b.b))}
+            if k == "String":
+                return {"Str": f"s{c}"}
+            if k == "Bytes":
+                return {"Bytes": [c % 250]}
+            if k == "List":
+                return {"List": [{"Int": c}]}
+            if k == "Map":
+                mp = ex.adt_fields(v, ex.variant_index(v, "Map"))[0]
+                d = {"other": {"Int": c}}
+                for key, o in ex.lazy.items():
+                    if key[0] == "env" and isinstance(key[1], str) and key[1] == "mapget:%s" % getattr(mp, "vid", None) and variant(o) == "Some":
+                        d[name_for(key[2])] = value(models.deref(ex, ex.adt_fields(o, 1)[0]), allow_ident=False)
+                return {"Map": d}
+            if k == "Null":
+                return {"Null": None}
+            if k == "Ident":
+                if not allow_ident:
+                    return {"Str": f"ident{c}"}
+                nv = vid_of(ex, ex.adt_fields(v, ex.variant_index(v, "Ident"))[0])
+                return {"Ident": name_for(nv)}
+            if k == "Type":
+                return {"Type": "int"}
+            if k == "ByteCode":
+                return {"ByteCode": [{"op": "Push", "val": {"Int": 100 + c}}]}
+            if k == "Err":
+                e = ex.adt_fields(v, ex.variant_index(v, "Err"))[0]
+                return {"Err": variant(e)}
+            raise ValueError(f"no concrete stand-in for a {k} operand")
+
+        instrs = []
+        for ins in ex.notes["prog"]:
+            op = variant(ins)
+            d = {"op": op}
+            if op == "Push":
+                d["val"] = value(ex.adt_fields(ins, ex.variant_index(ins, "Push"))[0])
+            elif op in ("MkList", "MkDict", "Call", "FmtString"):
+                d["n"] = mv(ex.adt_fields(ins, ex.variant_index(ins, op))[0].bv).as_long()
+            elif op == "Jmp":
+                d["dist"] = mv(ex.adt_fields(ins, ex.variant_index(ins, op))[0].bv).as_signed_long()
+            elif op == "JmpCond":
+                fs = ex.adt_fields(ins, ex.variant_index(ins, op))
+                d["when"] = variant(fs[0]) == "True"
+                d["dist"] = mv(fs[1].bv).as_signed_long()
+            instrs.append(d)
+        req["instrs"] = instrs
+        req["resolve"] = z3.is_true(mv(ex.notes["resolve"]))
+        return {"kind": "vm", "request": req, "depth_on_entry": mv(ex.notes["depth0"].bv).as_long()}
+    return build
+
+
 def final_stack(ex):
     """what run_raw left on its operand stack (the `stack` local of the outermost frame)"""
     for key, v in ex.mem.items():
@@ -725,8 +837,9 @@ def final_stack(ex):
 
 def check_vm(res, V):
     ex = res.ex
+    scen = vm_scenario(ex)
     if res.outcome == "panic":
-        V.check(ex, "the VM returns an error instead of panicking", False, detail=res.msg)
+        V.check(ex, "the VM returns an error instead of panicking", False, detail=res.msg, scenario=scen)
         return
     if res.outcome == "bound":
         V.witness("bounded (backward jump loop)")
@@ -749,7 +862,7 @@ def check_vm(res, V):
     try:
         combos = run_reference(ex, ref)
     except RefMismatch as e:
-        V.check(ex, "operations applied by the VM (which, operand order, how often)", False, detail=str(e))
+        V.check(ex, "operations applied by the VM (which, operand order, how often)", False, detail=str(e), scenario=scen)
         return
     except RefOutside as e:
         V.witness("outside the reference: " + str(e))
@@ -757,57 +870,57 @@ def check_vm(res, V):
     ret = res.ret
     for assumed, (out, vm) in combos:
         if vm.opos != len(ops):
-            V.check(ex, "no operation beyond the reference's", False, assumed, detail=f"the VM performed {len(ops)} operations, the reference {vm.opos}: {ops[vm.opos:]!r}")
+            V.check(ex, "no operation beyond the reference's", False, assumed, detail=f"the VM performed {len(ops)} operations, the reference {vm.opos}: {ops[vm.opos:]!r}", scenario=scen)
             continue
         if out[0] == "ok":
             V.witness("value")
             okv = ex.adt_fields(ret, 0)[0] if isinstance(ret.discr, int) and ret.discr == 0 else None
             V.check(ex, "run yields the reference's value", z3.BoolVal(False) if okv is None else matches(ex, okv, out[1]), assumed,
-                    detail=lambda: f"reference: Ok({out[1]!r}); VM: {ret!r}")
+                    detail=lambda: f"reference: Ok({out[1]!r}); VM: {ret!r}", scenario=scen)
             # what is left below the result must be what the reference left
             left = final_stack(ex)
             if left is not None:
                 want = vm.stack
                 same = len(left) == len(want)
-                V.check(ex, "operand stack below the result", same, assumed, detail=lambda: f"VM left {left!r}, reference {want!r}")
+                V.check(ex, "operand stack below the result", same, assumed, detail=lambda: f"VM left {left!r}, reference {want!r}", scenario=scen)
         else:
             V.witness("error:" + str(out[1] or "propagated"))
             is_err = isinstance(ret.discr, int) and ret.discr == 1
             if not is_err:
-                V.check(ex, "run fails like the reference", False, assumed, detail=lambda: f"reference: Err({out[1] or 'same as operand'}); VM: {ret!r}")
+                V.check(ex, "run fails like the reference", False, assumed, detail=lambda: f"reference: Err({out[1] or 'same as operand'}); VM: {ret!r}", scenario=scen)
                 continue
             e = ex.adt_fields(ret, 1)[0]
             if out[2] is not None:
-                V.check(ex, "run fails with the operand's own error", e.vid == out[2], assumed, detail=lambda: f"VM: {ret!r}")
+                V.check(ex, "run fails with the operand's own error", e.vid == out[2], assumed, detail=lambda: f"VM: {ret!r}", scenario=scen)
             elif out[1] is not None:
-                V.check(ex, f"run fails with a {out[1]} error", is_variant(ex, e, out[1]), assumed, detail=lambda: f"VM: {ret!r}")
+                V.check(ex, f"run fails with a {out[1]} error", is_variant(ex, e, out[1]), assumed, detail=lambda: f"VM: {ret!r}", scenario=scen)
             else:
-                V.check(ex, "run fails", True, assumed)
+                V.check(ex, "run fails", True, assumed, scenario=scen)
         # the depth counter is released on every exit
         d0 = ex.notes["depth0"]
         cur = ex.notes["interp"].fields[2].fields[0].fields[0]
         live = ex.read(ex.notes["interp_ref"].root, ())
         cur = live.fields[2].fields[0].fields[0]
-        V.check(ex, "call-depth counter restored on exit", cur.bv == d0.bv, assumed, detail=lambda: f"depth on exit {cur!r}, on entry {d0!r}")
+        V.check(ex, "call-depth counter restored on exit", cur.bv == d0.bv, assumed, detail=lambda: f"depth on exit {cur!r}, on entry {d0!r}", scenario=scen)
 
 
 TARGETS = []
 
 
-def add(name, prop, build, what, allow_bound=0, max_paths=20000):
-    TARGETS.append(dict(name=name, prop=prop, func="run_raw", self_ty="Interpreter", cfg=VM_CFG, make_args=template(build), check=check_vm, what=what,
+def add(name, props, build, what, allow_bound=0, max_paths=20000):
+    TARGETS.append(dict(name=name, props=props.split(","), func="run_raw", self_ty="Interpreter", cfg=VM_CFG, make_args=template(build), check=check_vm, what=what,
                         allow_bound=allow_bound, max_paths=max_paths,
                         bounds={"program": "fixed template, symbolic operands", "depth_on_entry": "0..=200", "counts": "<= 4"}))
 
 
-add("vm_binops", "C02", t_binops, "every binary opcode applies its operation to (first pushed, second pushed) in that order")
-add("vm_unops", "C05", t_unops, "Not/Neg/Test/Dup/Pop: Test keeps failures and otherwise yields the truthiness; stack effects")
-add("vm_resolve", "C12", t_resolve, "identifier operands resolve: type name, then variable, then stored program (same interpreter), else an unbound-name failure value")
-add("vm_jmpcond", "C05", t_jmpcond, "JmpCond pops; jumps iff Bool == when, a failing condition counts as 'false'; other kinds fail; targets bounded", allow_bound=10000)
-add("vm_jmp", "C10", t_jmp, "Jmp: target inside the block or at its end, otherwise an error", allow_bound=10000)
-add("vm_mklist", "C06", t_mklist, "MkList(n) builds the list of the last n pushed values in push order")
-add("vm_mkdict", "C06", t_mkdict, "MkDict(n): n (key, value) pairs, keys must be strings; insertion order = pop order")
-add("vm_fmt", "C14", t_fmt, "FmtString(n) concatenates its n string segments in push order; a non-string segment fails")
-add("vm_access", "C06", t_access, "m.k: the value stored under k wins over a method named k; absent field is an absent-field failure value; a.b on other kinds binds a method or fails")
-add("vm_call", "C12", t_call, "Call on an identifier: bound function, then macro, then type constructor, else 'not callable'; arguments in source order")
-add("vm_method", "C12", t_method_call, "obj.name(args): bound call through Access + Call")
+add("vm_binops", "C03,C04,C06,C01", t_binops, "every binary opcode applies its operation to (first pushed, second pushed) in that order")
+add("vm_unops", "C05,C01", t_unops, "Not/Neg/Test/Dup/Pop: Test keeps failures and otherwise yields the truthiness; stack effects")
+add("vm_resolve", "C12,C01", t_resolve, "identifier operands resolve: type name, then variable, then stored program (same interpreter), else an unbound-name failure value")
+add("vm_jmpcond", "C05,C10,C01", t_jmpcond, "JmpCond pops; jumps iff Bool == when, a failing condition counts as 'false'; other kinds fail; targets bounded", allow_bound=10000)
+add("vm_jmp", "C10,C01", t_jmp, "Jmp: target inside the block or at its end, otherwise an error", allow_bound=10000)
+add("vm_mklist", "C06,C01", t_mklist, "MkList(n) builds the list of the last n pushed values in push order")
+add("vm_mkdict", "C06,C01", t_mkdict, "MkDict(n): n (key, value) pairs, keys must be strings; insertion order = pop order")
+add("vm_fmt", "C14,C01", t_fmt, "FmtString(n) concatenates its n string segments in push order; a non-string segment fails")
+add("vm_access", "C06,C12,C01", t_access, "m.k: the value stored under k wins over a method named k; absent field is an absent-field failure value; a.b on other kinds binds a method or fails")
+add("vm_call", "C12,C01", t_call, "Call on an identifier: bound function, then macro, then type constructor, else 'not callable'; arguments in source order")
+add("vm_method", "C12,C01", t_method_call, "obj.name(args): bound call through Access + Call")
